@@ -50,7 +50,9 @@ class Namespace(pydsdl.Any):
         self._namespace_components = []  # type: typing.List[str]
         self._namespace_components_stropped = []  # type: typing.List[str]
         for component in full_namespace.split("."):
-            self._namespace_components_stropped.append(language_context.filter_id_for_target(component, "path"))
+            self._namespace_components_stropped.append(
+                language_context.filter_id_for_target(component, "path") if target_language.enable_stropping else component
+            )  # like the paths of the types in the namespace, which only strop when the language is configured to
             self._namespace_components.append(component)
         self._full_namespace = ".".join(self._namespace_components_stropped)
         self._output_folder = pathlib.Path(base_output_path / pathlib.PurePath(*self._namespace_components_stropped))
